@@ -10,12 +10,52 @@ Local Open Scope N_scope.
 
 Definition str (s : string) : bytes := list_byte_of_string s.
 
-(* Template.name *)
+(* Template.name -- the strings are evaluated to byte lists here so that Coq's [string] type does not
+   reach the extracted code *)
 Definition tname_str : tname -> bytes :=
-  Eval cbv in (fun t => match t with T_no_script => str "no_script" | T_pubkey => str "pubkey" | T_pubkey_hash => str "pubkey_hash" | T_multi_sig => str "multi_sig" | T_script_hash_multi_sig => str "script_hash+multi_sig" | T_timelock => str "timelock" | T_script_hash_timelock => str "script_hash+timelock" | T_pay_pubkey_full => str "pay_pubkey_full" | T_pay_pubkey_hash => str "pay_pubkey_hash" | T_pay_script_hash => str "pay_script_hash" | T_pay_segwit => str "pay_script_hash+segwit" | T_return_data => str "return_data" | T_claim_name_pkh => str "claim_name+pay_pubkey_hash" | T_claim_name_sh => str "claim_name+pay_script_hash" | T_support_claim_pkh => str "support_claim+pay_pubkey_hash" | T_support_claim_sh => str "support_claim+pay_script_hash" | T_support_claim_data_pkh => str "support_claim+data+pay_pubkey_hash" | T_support_claim_data_sh => str "support_claim+data+pay_script_hash" | T_update_claim_pkh => str "update_claim+pay_pubkey_hash" | T_update_claim_sh => str "update_claim+pay_script_hash" end)%string.
+  Eval cbv in (fun t =>
+     match t with
+     | T_no_script => str "no_script"
+     | T_pubkey => str "pubkey"
+     | T_pubkey_hash => str "pubkey_hash"
+     | T_multi_sig => str "multi_sig"
+     | T_script_hash_multi_sig => str "script_hash+multi_sig"
+     | T_timelock => str "timelock"
+     | T_script_hash_timelock => str "script_hash+timelock"
+     | T_pay_pubkey_full => str "pay_pubkey_full"
+     | T_pay_pubkey_hash => str "pay_pubkey_hash"
+     | T_pay_script_hash => str "pay_script_hash"
+     | T_pay_segwit => str "pay_script_hash+segwit"
+     | T_return_data => str "return_data"
+     | T_claim_name_pkh => str "claim_name+pay_pubkey_hash"
+     | T_claim_name_sh => str "claim_name+pay_script_hash"
+     | T_support_claim_pkh => str "support_claim+pay_pubkey_hash"
+     | T_support_claim_sh => str "support_claim+pay_script_hash"
+     | T_support_claim_data_pkh => str "support_claim+data+pay_pubkey_hash"
+     | T_support_claim_data_sh => str "support_claim+data+pay_script_hash"
+     | T_update_claim_pkh => str "update_claim+pay_pubkey_hash"
+     | T_update_claim_sh => str "update_claim+pay_script_hash"
+     end)%string.
 
 Definition field_str : field -> bytes :=
-  Eval cbv in (fun f => match f with F_signature => str "signature" | F_pubkey => str "pubkey" | F_height => str "height" | F_pubkey_hash => str "pubkey_hash" | F_script_hash => str "script_hash" | F_data => str "data" | F_claim_name => str "claim_name" | F_claim => str "claim" | F_claim_id => str "claim_id" | F_support => str "support" | F_script => str "script" | F_signatures => str "signatures" | F_pubkeys => str "pubkeys" | F_signatures_count => str "signatures_count" | F_pubkeys_count => str "pubkeys_count" end)%string.
+  Eval cbv in (fun f =>
+     match f with
+     | F_signature => str "signature"
+     | F_pubkey => str "pubkey"
+     | F_height => str "height"
+     | F_pubkey_hash => str "pubkey_hash"
+     | F_script_hash => str "script_hash"
+     | F_data => str "data"
+     | F_claim_name => str "claim_name"
+     | F_claim => str "claim"
+     | F_claim_id => str "claim_id"
+     | F_support => str "support"
+     | F_script => str "script"
+     | F_signatures => str "signatures"
+     | F_pubkeys => str "pubkeys"
+     | F_signatures_count => str "signatures_count"
+     | F_pubkeys_count => str "pubkeys_count"
+     end)%string.
 
 Definition s_pay_pubkey_full : bytes := Eval cbv in str "pay_pubkey_full"%string.
 Definition s_pay_pubkey_hash : bytes := Eval cbv in str "pay_pubkey_hash"%string.
